@@ -24,8 +24,10 @@ def main():
         props = [meta['property']] + meta.get('also', [])
         if sh('git -C /repo apply %s/patch.diff' % d).returncode != 0:
             meta['detected_by'] = {'error': 'patch does not apply to current tree'}
+            meta['verdict'] = 'PATCH-DOES-NOT-APPLY'
             rows.append((name, meta['property'], 'PATCH-DOES-NOT-APPLY', ''))
             json.dump(meta, open(d + '/meta.json', 'w'), indent=1)
+            print(rows[-1], flush=True)
             continue
         det = {}
         try:
